@@ -702,8 +702,12 @@ func (x *seqExec) doGC(op Op) {
 	// (post-rotation flushes, dumps) finish before the pass starts
 	g.W.Advance(2 * time.Second)
 	g.W.WaitIdle()
-	g.H.VerifFlush(true)
-	g.W.WaitIdle()
+	if x.plan.Prop != "C17" || op.ID%3 != 0 {
+		// (C17 keeps an unflushed / empty head file in a third of its requests)
+		g.H.VerifFlush(true)
+		g.W.WaitIdle()
+	}
+	gcNow := x.nowUnix()
 	bdir := x.sim.bucketDir(b)
 	before := snapshotDataFiles(bdir)
 	head, sizes, _ := g.H.VerifHead(b)
@@ -715,15 +719,21 @@ func (x *seqExec) doGC(op Op) {
 	begin, end, err := g.H.GC(b, op.GCStart, op.GCEnd, op.GCDays, op.Merge, op.Pretend)
 	g.W.TagNext = ""
 	if err != nil || op.Pretend {
+		g.W.WaitIdle()
 		x.inGC = false
-		if op.Pretend {
+		if op.Pretend && err == nil {
 			x.out.probe("gc-pretend")
-			after := snapshotDataFiles(bdir)
-			if !sameSnapshot(before, after) {
-				x.fail("R-gc-pretend-mutated", fmt.Sprintf("%s changed data files", op))
-			}
 		} else {
 			x.out.probe("gc-refused")
+		}
+		after := snapshotDataFiles(bdir)
+		if len(x.gcEvents) > 0 || !g.W.TasksDone("store.gcMgr.gc", nTasks) || g.W.NumTasks() != nTasks {
+			x.fail("R-gc-pretend-mutated", fmt.Sprintf("%s (err=%v) caused %d disk events / spawned a pass", op, err, len(x.gcEvents)))
+		} else if !sameSnapshot(before, after) && x.plan.Prop != "C17" {
+			x.fail("R-gc-pretend-mutated", fmt.Sprintf("%s (err=%v) changed data files", op, err))
+		}
+		if err == nil {
+			x.checkRange(op, begin, end, head, before, gcNow)
 		}
 		return
 	}
@@ -752,6 +762,15 @@ func (x *seqExec) doGC(op Op) {
 		x.out.probe("gc-begin>0")
 	}
 	x.classifyGC(begin, end, head, before, bdir)
+	if x.plan.Prop == "C17" {
+		x.checkRange(op, begin, end, head, before, gcNow)
+		if x.viol == nil {
+			x.checkEligibility(op, begin, end, head, before, gcNow)
+		}
+		if x.viol != nil {
+			return
+		}
+	}
 	// a tombstone whose record was dropped stays a tombstone in memory, but an index rebuild
 	// will not find it again: handled by Restart() widening.
 	x.verifyAll(fmt.Sprintf("after-gc[%d,%d]", begin, end), false)
